@@ -127,6 +127,11 @@ func gen(tier string) []proto.Item {
 			s := proto.Scn{Variant: v, First: 1, Last: 4, Dest: 3, TimeoutMs: 300, DelayMs: 10}
 			s.SynAck = &simnet.SynAckSpec{Enabled: false}
 			items = append(items, proto.Item{Scn: s, Class: v + "/handshake/never-captured", Note: map[string]string{"extra": "0", "handshake_only": "1"}})
+			// the connect itself is never answered: the run ends when the handshake timeout (here: the run's timeout) has passed
+			{
+				s := proto.Scn{Variant: v, First: 1, Last: 4, Dest: 3, TimeoutMs: 300, DelayMs: 10, DialBlackhole: true}
+				items = append(items, proto.Item{Scn: s, Class: v + "/handshake/connect-never-answered", Note: map[string]string{"extra": "0", "dial_only": "1"}})
+			}
 			// degenerate SACK option contents on the run's own connection (a block whose edges coincide, an option without a
 			// complete block): whatever the run makes of them, it ends within its bound
 			for _, f := range []string{"sackEmpty", "sack0", "sackHalf"} {
@@ -200,6 +205,9 @@ func check(it *proto.Item, r *proto.Result) []proto.Issue {
 	b := bound(sc, extra)
 	if it.Note["handshake_only"] != "" {
 		b = 500*time.Millisecond + 100*time.Millisecond + time.Millisecond
+	}
+	if it.Note["dial_only"] != "" {
+		b = time.Duration(sc.TimeoutMs)*time.Millisecond + time.Millisecond
 	}
 	if time.Duration(o.EndNs) > b {
 		return []proto.Issue{{Key: "bound-exceeded", Detail: fmt.Sprintf("returned after %s of virtual time, the bound computed from the parameters is %s (err=%v)", time.Duration(o.EndNs), b, o.Err)}}
@@ -427,6 +435,17 @@ func genRT(tier string) []proto.RTItem {
 		one := 300 + 10 + 100 + 100
 		items = append(items, proto.RTItem{Scn: r, Class: fmt.Sprintf("request/%s-%s/silent-destination-six-probes", pr.p, pr.m), Note: map[string]string{"limit_ms": fmt.Sprint(5*200 + one)}})
 	}
+	// the target's port swallows the SACK variant's connect (the SYN is dropped, nothing comes back): the connect gives up
+	// after the handshake timeout (the request's timeout); `sack` then fails, `prefer_sack` runs its SYN trace over the
+	// equally silent destination
+	for _, m := range []string{"sack", "prefer_sack"} {
+		r := proto.RTScn{Hostname: "198.18.0.9", Protocol: "tcp", Method: m, MinTTL: 1, MaxTTL: 4, DelayMs: 10, TimeoutMs: 300, Queries: 1, E2e: 0, Dest: 3, IPIDBase: 800, EchoBase: 80, UseListenerPort: true, Capability: "syn-dropped"}
+		limit := 300 + 100
+		if m == "prefer_sack" {
+			limit += 4*(300+100) + 100
+		}
+		items = append(items, proto.RTItem{Scn: r, Class: fmt.Sprintf("request/tcp-%s/connect-never-answered", m), Note: map[string]string{"limit_ms": fmt.Sprint(limit), "error_ok": "1"}})
+	}
 	return items
 }
 
@@ -437,7 +456,7 @@ func checkRT(it *proto.RTItem, r *proto.RTResult) []proto.Issue {
 		if time.Duration(r.ElapsedNs) > time.Duration(ms)*time.Millisecond {
 			return []proto.Issue{{Key: "bound-exceeded", Detail: fmt.Sprintf("request returned after %s, bound %dms", time.Duration(r.ElapsedNs), ms)}}
 		}
-		if r.Err != nil {
+		if r.Err != nil && it.Note["error_ok"] == "" {
 			return []proto.Issue{{Key: "silence-failed-the-request", Detail: r.Err.Error()}}
 		}
 		return nil
